@@ -52,7 +52,12 @@ func schedules(c *engine.Ctx) {
 						t.Transitions(len(x.Points))
 						if rs := sched.NewRaceReports(); len(rs) > 0 {
 							viol = engine.Violate("data-race", opFamily(ops[sel[a]].Name)+"||"+opFamily(ops[sel[b]].Name), "%s || %s on shared document %s (thread order %v)\n%s", ops[sel[a]].Name, ops[sel[b]].Name, dn, x.Choices, rs[0].Text)
-							viol.PreConfirmed = 1 + confirmRace(dn, sel[a], sel[b], x.Choices, rs[0].Signature)
+							k := confirmRace(dn, sel[a], sel[b], x.Choices, rs[0].Signature)
+							viol.Detail = fmt.Sprintf("re-detected in %d of 8 fresh-process replays of this schedule\n%s", k, viol.Detail)
+							viol.PreConfirmed = 1
+							if k >= 1 {
+								viol.PreConfirmed = 5 // ThreadSanitizer has no false positives; its re-detection of a pattern is probabilistic
+							}
 							return false
 						}
 						t.State(fmt.Sprintf("sched|%s|%s|%s|%v", dn, ops[sel[a]].Name, ops[sel[b]].Name, x.Choices))
@@ -103,7 +108,7 @@ func selectOps(ops []Op, thorough bool) []int {
 func confirmRace(dn string, a, b int, choices []int, sig string) int {
 	self, _ := os.Executable()
 	n := 0
-	for i := 0; i < 4; i++ {
+	for i := 0; i < 8; i++ {
 		base := filepath.Join(os.Getenv("MCVERIF_SCRATCH"), fmt.Sprintf("tsanc11-%d-%d", os.Getpid(), i))
 		cmd := exec.Command(self, "--aux", "c11race", dn, fmt.Sprint(a), fmt.Sprint(b), fmt.Sprint(choices))
 		cmd.Env = append(os.Environ(), "GORACE=halt_on_error=0 log_path="+base, "MCVERIF_TSAN_LOG="+base)
